@@ -426,7 +426,25 @@ class Tracer:
         # the callback may have left tol at -1 if the run ended inside a planned failure
         tds.config.tol = self.tol0
         dae = ss.dae
-        self.ev.append(dict(e="run_end", seg=seg, ret=(bool(ret) if ret is not None else None), raised=raised,
+        # stability criterion re-evaluated from the stored trajectory, independently of the addresses the routine keeps: the rotor
+        # angles of the in-service synchronous machines of a network in one piece must never be ddelta_limit apart at a stored
+        # step of a run that goes on (a run stopped by the criterion stores the offending step last)
+        unstable = False
+        try:
+            if int(tds.config.criteria) == 1 and len(ss.Bus.island_sets) <= 1 and len(dae.ts._xs) > 1:
+                addr = []
+                for mdl in ss.SynGen.models.values():
+                    for k in range(mdl.n):
+                        if mdl.u.v[k] == 1 and not (ss.Bus.idx2uid(mdl.bus.v[k]) in list(ss.Bus.islanded_buses)):
+                            addr.append(int(mdl.delta.a[k]))
+                if len(addr) >= 2:
+                    xs = np.asarray(dae.ts.x)[:, addr]
+                    spread = xs.max(axis=1) - xs.min(axis=1)
+                    rows = spread[:-1] if not ret else spread
+                    unstable = bool(np.any(rows >= np.deg2rad(float(tds.config.ddelta_limit))))
+        except Exception:
+            unstable = False
+        self.ev.append(dict(e="run_end", seg=seg, ret=(bool(ret) if ret is not None else None), raised=raised, unstable=unstable,
                             t=_f(dae.t), tf=_f(tds.config.tf), h=_f(tds.h), busted=bool(tds.busted),
                             exit_delta=int(ss.exit_code - ec0),
                             nan_state=bool(np.isnan(dae.x).any() or np.isnan(dae.y).any()),
@@ -670,7 +688,7 @@ def encode_trace(res, tid, sc):
             mono = all(ts[i] < ts[i + 1] for i in range(len(ts) - 1))
             out.append(dict(e=k, seg=e["seg"], ret=(e["ret"] is True), raised=(e["raised"] is not None), t=R(e["t"]),
                             tf=R(e["tf"]), t_eq_tf=bool(e["t"] == e["tf"]), busted=e["busted"],
-                            exit_delta=e["exit_delta"], nan_state=e["nan_state"], mem=e["mem"], ts_mono=bool(mono),
+                            exit_delta=e["exit_delta"], nan_state=e["nan_state"], mem=e["mem"], ts_mono=bool(mono), unstable=bool(e.get("unstable", False)),
                             status=status))
         elif k == "limits":
             out.append(dict(e=k, within=e["within"], pegged_zero=e["pegged_zero"], onehot=e["onehot"],
